@@ -150,3 +150,4 @@
 (declare-fun domin (Int String) Bool)
 (declare-fun RealPath (String) String)          ; filepath.EvalSymlinks: the physical path, all links resolved
 (declare-fun isLocalPath (String) Bool)         ; filepath.IsLocal
+(define-fun fromCode ((c Int)) String (str.from_code c))
